@@ -178,7 +178,13 @@ where
                 // We don't have a valid connection - we must reconnect.
                 if src.inner.is_none() {
                     warn!("Reconnecting");
-                    match inner::connect(&src.config).await {
+                    // The connect includes the registration; a terminal which
+                    // stays silent there must not block us forever.
+                    let connected = match tokio::time::timeout(timeout, inner::connect(&src.config)).await {
+                        Ok(res) => res,
+                        Err(_) => Err(Error::new(ErrorKind::TimedOut, "Timeout while connecting").into()),
+                    };
+                    match connected {
                         Ok(inner) => src.inner = Some(inner),
                         Err(err) => {
                             warn!("Failed to reconnect: {err:?}");
